@@ -23,6 +23,15 @@ theorem C03_gen_filter_shape :
     filterEmptyMeansAll = true ∧ filterUnknownIsError = true ∧ filterEmptyResultIsError = true ∧
     findIsFirstExact = true := by decide
 
+/-- the channel list a connection is served with is, on every server kind, the Filter result of the endpoint the
+    connection arrived on: the socket / packet / stdio servers serve their own `upstreams` field, assigned once from
+    `Filter(st.Channels)`; the websocket handler serves a parameter of `EndpointHandler` that Startup binds, per
+    loop iteration, to `Filter(endpoint.Channels)` of that iteration (a *value* fixed when the handler is created,
+    not something read through the loop variable at request time). `endpointKept` in the model rests on this. -/
+theorem C03_gen_endpoint_lists :
+    httpHandlerListOrigin = "per-endpoint-filter-result" ∧ socketServesOwnFilterResult = true ∧
+    packetServesOwnFilterResult = true ∧ stdioServesOwnFilterResult = true := by decide
+
 theorem clientProto_eq (n : Str) : clientProto n = '/' :: n := by
   have : clientFormat = "/%s" := by decide
   simp [clientProto, this]
@@ -253,6 +262,126 @@ theorem C03_no_prefix_case (ms : List Str → Str → Bool) (hms : ExactMatch ms
       cases hf
     · rfl
 
+/-! ## per endpoint: several servers sharing the table, several websocket paths
+
+  The allow-list that decides a request is the one configured for the endpoint (server, and for HTTP the
+  websocket path) the request arrived on — not that of another path of the same HTTP server, nor that of
+  another server started from the same channel table. -/
+
+/-- the allow-list *configured* for the endpoint (server `i`, `path`), when that endpoint is served at all:
+    the server started (for HTTP: every endpoint's list passed Filter) and, for HTTP, `path` is the path of
+    one of its endpoints (the first of that path) -/
+def endpointAllow (chs : List Chan) (srvs : List Srv) (i : Nat) (path : Str) : Option (List Str) :=
+  match srvs[i]? with
+  | none => none
+  | some (.plain k allow) => if (startup k chs allow).listening then some allow else none
+  | some (.http eps) =>
+    if httpErr chs eps then none else (eps.find? (fun e => decide (e.1 = path))).map (·.2)
+
+def routeAt (ms : List Str → Str → Bool) (chs : List Chan) (srvs : List Srv) (i : Nat) (path proto : Str) : Res :=
+  (runAt ms chs srvs i path proto).1
+
+def dialsAt (ms : List Str → Str → Bool) (chs : List Chan) (srvs : List Srv) (i : Nat) (path proto : Str) : List Nat :=
+  (runAt ms chs srvs i path proto).2
+
+/-- what is served on an endpoint is Filter's list for the allow-list configured for that very endpoint -/
+theorem endpointKept_eq (chs : List Chan) (srvs : List Srv) (i : Nat) (path : Str) :
+    (srvs[i]?).bind (fun s => endpointKept chs s path) =
+      (endpointAllow chs srvs i path).map (fun allow => (filter chs allow).1) := by
+  unfold endpointAllow
+  cases hs : srvs[i]? with
+  | none => rfl
+  | some s =>
+    cases s with
+    | plain k allow =>
+      simp only [Option.bind_some, endpointKept]
+      by_cases hl : (startup k chs allow).listening = true
+      · simp [hl, (C03_startup_fail_closed k chs allow).2.2 hl]
+      · simp [hl]
+    | http eps =>
+      simp only [Option.bind_some, endpointKept]
+      by_cases he : httpErr chs eps = true
+      · simp [he]
+      · simp only [he, Bool.false_eq_true, if_false]
+        cases eps.find? (fun e => decide (e.1 = path)) <;> rfl
+
+theorem runAt_eq (ms : List Str → Str → Bool) (chs : List Chan) (srvs : List Srv) (i : Nat) (path proto : Str) :
+    runAt ms chs srvs i path proto =
+      match endpointAllow chs srvs i path with
+      | none => (.unreachable, [])
+      | some allow => serve ms (filter chs allow).1 proto := by
+  have h := endpointKept_eq chs srvs i path
+  unfold runAt
+  cases hs : srvs[i]? with
+  | none => simp [endpointAllow, hs]
+  | some s =>
+    rw [hs] at h
+    simp only [Option.bind_some] at h
+    simp only [h]
+    cases endpointAllow chs srvs i path <;> rfl
+
+/-- **routing per endpoint**: a request arriving on endpoint (server i, path) is connected to target `t` iff
+    it is "/"+n, that endpoint is served, n is allowed *by the allow-list configured for that endpoint*
+    (empty = all), and `t` is the target of the first configured channel named n -/
+theorem C03_routeAt_iff (ms : List Str → Str → Bool) (hms : ExactMatch ms) (chs : List Chan) (srvs : List Srv)
+    (i : Nat) (path proto : Str) (t : Nat) :
+    routeAt ms chs srvs i path proto = .connect t ↔
+      ∃ n allow, proto = '/' :: n ∧ endpointAllow chs srvs i path = some allow ∧ (allow = [] ∨ n ∈ allow) ∧
+        ∃ c, find chs n = some c ∧ c.target = t := by
+  unfold routeAt
+  rw [runAt_eq]
+  cases ha : endpointAllow chs srvs i path with
+  | none => simp
+  | some allow =>
+    simp only [Option.some.injEq]
+    constructor
+    · intro h
+      have hp : ∃ n, proto = '/' :: n := by
+        unfold serve at h
+        split at h
+        · rename_i hm; exact handlers_slash _ _ ((hms _ _).mp hm)
+        · cases h
+      obtain ⟨n, rfl⟩ := hp
+      rw [serve_slash ms hms, find_filter] at h
+      refine ⟨n, allow, rfl, rfl, ?_⟩
+      by_cases hal : allow = [] ∨ n ∈ allow
+      · refine ⟨hal, ?_⟩
+        simp only [hal, if_true] at h
+        cases hf : find chs n with
+        | none => simp [hf] at h
+        | some c => simp [hf] at h; exact ⟨c, rfl, h⟩
+      · simp [hal] at h
+    · rintro ⟨n, allow', rfl, rfl, hal, c, hf, ht⟩
+      rw [serve_slash ms hms, find_filter]
+      simp [hal, hf, ht]
+
+/-- **no dial without a route, per endpoint**: the targets dialled are exactly [t] when the request was
+    connected to t, and none when it was refused or the endpoint is not served -/
+theorem C03_refusedAt_no_dial (ms : List Str → Str → Bool) (chs : List Chan) (srvs : List Srv)
+    (i : Nat) (path proto : Str) :
+    dialsAt ms chs srvs i path proto =
+      match routeAt ms chs srvs i path proto with
+      | .connect t => [t]
+      | _ => [] := by
+  unfold dialsAt routeAt
+  rw [runAt_eq]
+  cases endpointAllow chs srvs i path with
+  | none => rfl
+  | some allow =>
+    simp only
+    unfold serve
+    split
+    · split <;> simp_all
+    · simp
+
+/-- **isolation**: once the server is up, what a request gets on an endpoint does not depend on the other
+    servers of the configuration nor on the allow-lists of the other websocket paths of the same HTTP server:
+    it is what a lone socket server with that endpoint's allow-list would answer -/
+theorem C03_endpoint_isolated (ms : List Str → Str → Bool) (chs : List Chan) (srvs : List Srv)
+    (i : Nat) (path proto : Str) (allow : List Str) (h : endpointAllow chs srvs i path = some allow) :
+    runAt ms chs srvs i path proto = serve ms (filter chs allow).1 proto := by
+  rw [runAt_eq, h]
+
 /-! ## non-vacuity -/
 
 def cfg : List Chan := [⟨"ssh".toList, 0⟩, ⟨"web".toList, 1⟩, ⟨"ssh".toList, 2⟩, ⟨"SSH".toList, 3⟩]
@@ -276,12 +405,26 @@ example : (startup .socket cfg ["ssh".toList, "nope".toList]).listening = false 
 example : (startup (.http ["nope".toList]) cfg ["ssh".toList]).listening = false := by decide
 example : (startup (.http ["web".toList]) cfg ["ssh".toList]).kept = [⟨"ssh".toList, 0⟩] := by decide
 
+-- two websocket paths with different allow-lists: each enforces its own (not the last one's)
+def twoPaths : List Srv := [.http [("ws/a".toList, ["ssh".toList]), ("ws/b".toList, ["web".toList])], .plain .socket ["web".toList]]
+example : runAt exact cfg twoPaths 0 "ws/a".toList "/web".toList = (.refused, []) := by decide
+example : runAt exact cfg twoPaths 0 "ws/a".toList "/ssh".toList = (.connect 0, [0]) := by decide
+example : runAt exact cfg twoPaths 0 "ws/b".toList "/web".toList = (.connect 1, [1]) := by decide
+example : runAt exact cfg twoPaths 0 "ws/b".toList "/ssh".toList = (.refused, []) := by decide
+example : runAt exact cfg twoPaths 0 "ws/c".toList "/ssh".toList = (.unreachable, []) := by decide
+example : runAt exact cfg twoPaths 1 [] "/ssh".toList = (.refused, []) := by decide
+example : endpointAllow cfg twoPaths 0 "ws/a".toList = some ["ssh".toList] := by decide
+
 end SA.Props.C03
 
 #print axioms SA.Props.C03.C03_gen_prefixes
 #print axioms SA.Props.C03.C03_gen_filter_shape
+#print axioms SA.Props.C03.C03_gen_endpoint_lists
 #print axioms SA.Props.C03.C03_startup_fail_closed
 #print axioms SA.Props.C03.C03_startup_reports_error
 #print axioms SA.Props.C03.C03_route_iff
 #print axioms SA.Props.C03.C03_refused_no_dial
 #print axioms SA.Props.C03.C03_no_prefix_case
+#print axioms SA.Props.C03.C03_routeAt_iff
+#print axioms SA.Props.C03.C03_refusedAt_no_dial
+#print axioms SA.Props.C03.C03_endpoint_isolated
